@@ -23,13 +23,14 @@ Routines == Leaves \cup NonLeaves \cup VoidRoutines \cup {"gen_variable_decl"}
 MayChoose(r, d, ol, xv, void) ==
   IF void THEN r \in VoidRoutines
   ELSE IF d >= MaxDepth \/ ol THEN r \in Leaves /\ (r = "gen_variable" => ~ol /\ ~xv)
-  ELSE r \in Leaves \cup NonLeaves /\ (r = "gen_variable" => ~xv)
+  ELSE r \in Leaves \cup NonLeaves         \* (above the leaf threshold gen_variable is a candidate even with exclude_var set)
 
 \* sub-calls of generate_expr made (directly or through helper routines) by a routine:  <<depth increment, only_leaves', exclude_var', void', zero-cost link?>>
 \* (ol = the only_leaves flag of the calling generate_expr)
 Sub(r, ol) ==
   CASE r = "gen_new"            -> {<<1, ol, FALSE, FALSE, FALSE>>, <<1, TRUE, FALSE, FALSE, FALSE>>}
-    [] r = "gen_variable"       -> {<<0, ol, TRUE, FALSE, FALSE>>}               \* falls back to a fresh expression, variables excluded
+    [] r = "gen_variable"       -> {<<0, ol, TRUE, FALSE, TRUE>>}                \* falls back to a fresh expression at the same depth; above the
+                                                                                 \* leaf threshold this may choose gen_variable again (zero-cost link)
     [] r = "gen_array_expr"     -> {<<0, ol, FALSE, FALSE, FALSE>>, <<0, TRUE, FALSE, FALSE, FALSE>>}      \* bounded by the nesting of the array type
     [] r = "gen_field_access"   -> {<<1, ol, FALSE, FALSE, FALSE>>}
     [] r = "gen_conditional"    -> {<<3, ol, FALSE, FALSE, FALSE>>}
@@ -43,6 +44,36 @@ Sub(r, ol) ==
     [] r = "gen_assignment"     -> {<<0, ol, FALSE, FALSE, TRUE>>, <<1, ol, FALSE, FALSE, FALSE>>}
     [] r = "gen_variable_decl"  -> {<<1, ol, FALSE, FALSE, FALSE>>}
     [] OTHER -> {}
+
+\* ---- the edge table: which generate_expr sub-calls each routine of the code makes (caller = the routine whose frame encloses
+\* the call), with the depth increment.  This is what the running generator is checked against, edge by edge.
+Deltas(caller) ==
+  CASE caller \in {"_gen_func_body", "_gen_side_effects", "_gen_func_params_with_default", "_gen_func_ref", "gen_array_expr",
+                   "gen_is_expr", "gen_variable"} -> {0}
+    [] caller = "_gen_func_call" -> {0, 1}            \* 0: the receiver (zero-cost link), 1: the arguments
+    [] caller = "gen_assignment" -> {0, 1}
+    [] caller = "gen_conditional" -> {3}
+    [] caller \in {"gen_new", "gen_field_access", "gen_logical_expr", "gen_equality_expr", "gen_comparison_expr", "gen_variable_decl",
+                   "gen_class_decl", "generate_main_func", "_gen_func_call_ref", "gen_field_decl", "gen_func_decl", "gen_lambda",
+                   "_gen_func_ref_lambda", "gen_func_ref", "gen_param_decl", "_gen_func_from_existing"} -> {1}
+    [] OTHER -> {}
+EdgeOK(caller, delta, ol2, xv2, void2) ==
+  /\ delta \in Deltas(caller)
+  /\ (xv2 <=> caller = "gen_variable")
+  /\ (void2 => caller \in {"_gen_func_body", "_gen_side_effects"})
+  /\ (caller \in {"gen_is_expr", "_gen_func_params_with_default", "gen_class_decl"} => ol2)
+\* which routine generate_expr may dispatch to (the leaf rule), as observed from the enclosing generate_expr frame
+LeafOK(routine, atLeafDepth, ol1, void1, xv1) ==
+  IF routine = "gen_variable_decl" THEN ~ol1 /\ ~void1                     \* the "store it in a variable" epilogue of generate_expr
+  ELSE IF void1 THEN routine \in VoidRoutines
+  ELSE IF atLeafDepth \/ ol1 THEN routine \in Leaves /\ (routine = "gen_variable" => ~ol1 /\ ~xv1)
+  ELSE routine \in Leaves \cup NonLeaves
+\* the abstract path model below is consistent with the edge table: every sub-call it allows is an edge of some helper of the routine
+Helpers(r) == CASE r = "gen_func_call" -> {"_gen_func_call", "_gen_func_body", "_gen_side_effects", "_gen_func_params_with_default", "_gen_func_call_ref"}
+                [] OTHER -> {r}
+ModelConsistent == \A r \in Routines \ {"constant"}, o \in BOOLEAN : \A s \in Sub(r, o) :
+                      \E c \in Helpers(r) : EdgeOK(c, s[1], s[2], s[3], s[4])
+ASSUME ModelConsistent
 
 VARIABLES d, ol, xv, void, links, asize, done
 vars == <<d, ol, xv, void, links, asize, done>>
